@@ -26,6 +26,13 @@ use crate::{AttrStore, Config};
 
 pub type ArenaDoc<'a> = DocBuilder<'a, Arena<'a>>;
 
+/// Render a comment node alone at the given width (verification hook).
+#[cfg(typstyle_verif)]
+pub fn verif_comment_doc(node: &SyntaxNode, width: usize) -> String {
+    let arena = Arena::new();
+    comment::comment(&arena, node).pretty(width).to_string()
+}
+
 pub struct PrettyPrinter<'a> {
     config: Config,
     attr_store: AttrStore,
@@ -91,6 +98,8 @@ impl<'a> PrettyPrinter<'a> {
     }
 
     pub fn convert_expr(&'a self, ctx: Context, expr: Expr<'a>) -> ArenaDoc<'a> {
+        #[cfg(typstyle_verif)]
+        crate::verif_hooks::bump();
         if let Some(res) = self.check_disabled(expr.to_untyped()) {
             return res;
         }
